@@ -99,7 +99,7 @@ func init() {
 		QuickCases: 4000, ThoroughCases: 80000,
 		NonTrivial: func(r *sim.Result) bool { return r.Stats["C05 tails starting above view 0"] > 0 },
 		Rule:       "random adversarial prefix (as C01, 300 steps, partitions, starvation, drops) then a stabilised tail: laggards synced, every in-flight message delivered before the next virtual timer (base*2^view) expires, timers in virtual-time order, adversary still active. Judged: (a) a correct node commits the height before any correct node's view exceeds vmax+2n+2; (b) if the committing view's proposal was emitted after stabilisation every correct node that stored it commits it. non-trivial = the tail started from a state above view 0",
-		Floors:     map[string]int{"C05 tails judged": 1500, "C05 tails with commit": 1500, "C05 completeness judged": 300, "C05 tails starting above view 0": 500},
+		Floors:     map[string]int{"C05 tails judged": 1500, "C05 tails with commit": 1500, "C05 completeness judged": 300, "C05 tails starting above view 0": 500, "C05 own-commit broadcasts judged": 5000},
 		Judged:     []string{"C05 tails judged", "C05 tails with commit", "C05 completeness judged", "C05 tails starting above view 0", "C05 completeness not judged: committing view's proposal predates stabilisation", "C05 not judged: every explored height already decided"},
 		Extra: func(run *harness.Run) ([]harness.Finding, map[string]interface{}, []string) {
 			r := sim.ScriptHeavyMember()
@@ -139,7 +139,7 @@ func init() {
 		}})
 	reg(&sim.SimCheck{Prop: "C13", Workload: "c13", Profile: func(th bool) *sim.Profile {
 		p := advProfile(merge(noBare, map[string]int{"support": 20, "mutate": 15}), 500, 3)(th)
-		p.CommitFailures, p.SplitHandoff = true, true
+		p.CommitFailures, p.SplitHandoff, p.ReverseToLaggers = true, true, true
 		return p
 	},
 		QuickCases: 3000, ThoroughCases: 60000,
@@ -152,7 +152,7 @@ func init() {
 		}})
 	reg(&sim.SimCheck{Prop: "C17", Workload: "c17", Profile: func(th bool) *sim.Profile {
 		p := advProfile(merge(noBare, map[string]int{"support": 25, "crossInstance": 12, "mutate": 15, "corruptNested": 4}), 600, 3)(th)
-		p.SplitHandoff, p.SyncPct, p.MinN = true, 6, 5
+		p.SplitHandoff, p.SyncPct, p.MinN, p.ReverseToLaggers = true, 6, 5, true
 		return p
 	},
 		QuickCases: 3000, ThoroughCases: 60000,
